@@ -2,11 +2,19 @@ from lanes import *  # noqa
 
 PROP = {
     "level": "exploration",
-    "level_text": "TODO",
-    "level_note": "TODO",
-    "technique": "runtime monitoring: first-wins reference model over seeded collection trees, static generic shapes and fixed macro call sites",
-    "assumptions": [],
+    "level_text": "Seeded exploration with a first-wins reference model as oracle: every generated collection is enumerated once with for_each and get / pull / is_unique / dedup() / early Break are compared against that single enumeration, on the value, behind &, through dyn ErasedProps, through dedup() (and its erased view) and as_map(). Workloads: ~150 k (quick) to 6 M (thorough) random nestings of every collection the public API offers (pairs, arrays, slices, Vec via slice, BTreeMap, HashMap, Option, And, Box, Arc, &, dyn ErasedProps, Dedup, AsMap, Span, Metric, Extent, SpanCtxt, ThreadLocalCtxt snapshots, TraceparentCtxtProps, Event::props() as an emitter sees it after emit() appended the ambient context, macro-built __PrivateMacroProps with keys in any order), ~65 fully generic static shapes over 1.5 k / 40 k seeded entry sets, and 53 fixed props!/evt!/emit! call sites mixing plain, renamed, optional and cfg'd keys whose message must interpolate every hole. Held-on-what-was-observed over the shapes and key sets that were generated, not a proof over all nestings; the generated-programs lane for macro call sites is added separately.",
+    "level_note": "Trusts the small reference model in harness/mon/src/bin/c02.rs (first-wins map derived from one enumeration; value identity = Display + Debug text and i64/f64/bool/String casts) and std's catch_unwind. Miri and ASan lanes watch the unsafe casts in Dedup::new / AsMap::new, Str, the lifetime-erased ambient snapshot (ErasedCurrent) and TraceparentCtxtProps's raw pointer while the same workloads run at small scale.",
+    "technique": "runtime monitoring: first-wins reference model over seeded collection trees (every edge through dyn ErasedProps), fully generic static shapes and fixed macro call sites; Miri and AddressSanitizer builds of the same monitor",
+    "assumptions": [
+        "the order in which dedup() yields keys is not constrained by the statement (the implementation yields sorted keys, not first-occurrence order) and is not checked",
+        "views of one collection (value, &, erased, dedup, as_map) are each checked for coherence with their own enumeration; that two views enumerate the same entries is not part of the statement and not a verdict",
+        "a for_each that returns Break although the visitor never asked for it is not settled by the statement and not checked",
+        "collections handed to the oracle have keys with distinct final names wherever they claim uniqueness by construction (macro-built collections, ambient frames), as the property quantifies",
+        "macro call sites are a fixed hand-written set here; the generated-programs lane covers the 'all call sites' part of the quantifier",
+    ],
     "lanes": [
         native("c02"),
+        miri("c02", seeds_q=0, seeds_t=8, scale=100),
+        san("asan", "c02", scale=10),
     ],
 }
